@@ -594,8 +594,9 @@ Section Refinement.
   Proof.
     intros s a s' HI HR Hph E.
     destruct (step_ends _ _ E Hph) as (Hs & _). destruct (Hs eq_refl) as (? & ? & ?).
-    pose proof (step_sim Next HI HR I) as (Hout & HI' & HR'). rewrite E in *. simpl in *.
-    destruct (sstep a Next) as [a' y] eqn:Es. simpl in *. subst y.
+    pose proof (step_sim Next HI HR I) as Hsim. rewrite E in Hsim.
+    destruct (sstep a Next) as [a' y] eqn:Es. destruct Hsim as (Hout & HI' & HR').
+    cbn [fst snd] in *. subst y.
     assert (Hc : closed a = false).
     { destruct HR as (_ & _ & _ & RR). destruct (ph s); try tauto; destruct RR as (_ & ? & _); assumption. }
     destruct (sstep_stop_open _ Hc Es) as (Sp & Sl & _).
@@ -616,49 +617,39 @@ Section Refinement.
              | _ => ORaise
              end.
   Proof.
-    intros s a p HI HR Hph Hp s1 r2.
-    pose proof (step_sim (Seek p) HI HR I) as (Hout1 & HI1 & HR1).
-    fold s1 in HI1, HR1.
-    pose proof (step_sim Next HI1 HR1 I) as (Hout2 & HI2 & HR2).
-    fold r2 in Hout2, HI2, HR2.
+    intros s a p HI HR Hph Hp.
+    assert (Hrange : negb ((0 <=? p) && (p <? Z.of_nat N)) = false).
+    { apply negb_false_iff, andb_true_iff. split; [apply Z.leb_le|apply Z.ltb_lt]; lia. }
+    assert (Em : step s (Seek p) = (set_n s (p - 1), OSeekOk)).
+    { simpl. rewrite Hrange. destruct Hph as [-> | ->]; reflexivity. }
     destruct HR as (Rp & Rz & Rl & RR).
     assert (Hst : started a = true /\ closed a = false /\ left a = rep s).
     { destruct Hph as [E|E]; rewrite E in RR; tauto. }
     destruct Hst as (Hst & Hcl & Hle).
     assert (Hll : loop_no s = Some (rep s)).
-    { destruct HI as (_ & HI). destruct Hph as [E|E]; rewrite E in HI; tauto. }
-    assert (Es : sstep a (Seek p) =
-      ({| started := true; closed := false; nxt := Z.to_nat p; left := left a; spos := spos a;
-          ssize := ssize a; sloop := sloop a |}, OSeekOk)).
-    { simpl. replace (negb _) with false.
-      - rewrite Hcl, Hst. reflexivity.
-      - symmetry. apply negb_false_iff, andb_true_iff. split; [apply Z.leb_le|apply Z.ltb_lt]; lia. }
-    rewrite Es in *. simpl in Hout1, HR1.
-    destruct HR1 as (Rp1 & Rz1 & Rl1 & _). simpl in Rp1, Rz1, Rl1.
+    { destruct HI as (_ & HI'). destruct Hph as [E|E]; rewrite E in HI'; tauto. }
     set (a1 := {| started := true; closed := false; nxt := Z.to_nat p; left := left a; spos := spos a;
-                  ssize := ssize a; sloop := sloop a |}) in *.
+                  ssize := ssize a; sloop := sloop a |}).
+    assert (Es : sstep a (Seek p) = (a1, OSeekOk)).
+    { simpl. rewrite Hrange, Hcl, Hst. reflexivity. }
     assert (Es2 : sstep a1 Next = produce a1 (Z.to_nat p) (left a)).
     { rewrite sstep_next_lt; simpl; auto. lia. }
-    rewrite Es2 in *.
+    pose proof (step_sim (Seek p) HI (conj Rp (conj Rz (conj Rl RR))) I) as Hs1.
+    rewrite Em, Es in Hs1. destruct Hs1 as (_ & HI1 & HR1). cbn [fst snd] in HI1, HR1.
+    pose proof (step_sim Next HI1 HR1 I) as Hs2. rewrite Es2 in Hs2.
+    rewrite Em. cbn [fst snd].
+    destruct (step (set_n s (p - 1)) Next) as [s2 x2].
+    destruct Hs2 as (Hout2 & _ & HR2). cbn [fst snd] in *.
     destruct HR2 as (Rp2 & _ & Rl2 & _).
-    unfold ImgIterSpec.produce in *. simpl in *.
-    rewrite Rz in *.
-    destruct (fmt_frame (Z.to_nat p) (size s)); simpl in *;
+    unfold ImgIterSpec.produce in *. change (ssize a1) with (ssize a) in *. rewrite Rz in *.
+    destruct (fmt_frame (Z.to_nat p) (size s)); cbn [fst snd spos sloop] in *;
+      (split; [reflexivity|]); (split; [reflexivity|]); (split; [reflexivity|]);
       repeat split; try congruence; try lia.
   Qed.
 
   (* ------------------------------------- an iterator that has ended stays so *)
 
-  Definition in_range (p : Z) : bool := (0 <=? p) && (p <? Z.of_nat N).
-
-  (** what every operation answers once the iterator has ended *)
-  Definition ended_view (p : Z) (l : option Z) (o : op Size) : outcome Str * Z * option Z * bool :=
-    (match o with
-     | Next => OStop
-     | Seek q => if in_range q then OSeekClosed else OSeekBad
-     | Close | Drop => OClosed
-     | SetImageSize _ => OSized
-     end, p, l, false).
+  Notation ended_view := (ended_view Str N).
 
   Lemma ended_forever : forall ops (s : st),
     ph s = PEnd -> img_open s = false -> trace s ops = map (ended_view (pos s) (loop_no s)) ops.
@@ -666,7 +657,7 @@ Section Refinement.
     induction ops as [|o ops IH]; intros s Hph Hio; [reflexivity|].
     simpl. destruct o as [|p| | |z]; simpl.
     - rewrite Hph. simpl. rewrite Hio. f_equal. apply IH; assumption.
-    - unfold in_range. destruct ((0 <=? p) && (p <? Z.of_nat N)); simpl.
+    - unfold ImgIterSpec.ended_view, in_range. destruct ((0 <=? p) && (p <? Z.of_nat N)); simpl.
       + rewrite Hph. simpl. rewrite Hio. f_equal. apply IH; assumption.
       + rewrite Hio. f_equal. apply IH; assumption.
     - f_equal. apply (IH (end_it s)); reflexivity.
@@ -677,6 +668,342 @@ Section Refinement.
   Lemma close_final : forall (s : st) o ops, o = Close \/ o = Drop ->
     trace s (o :: ops) = (OClosed, pos s, loop_no s, false) :: map (ended_view (pos s) (loop_no s)) ops.
   Proof.
-    intros s o ops [-> | ->]; simpl; f_equal; apply (ended_forever ops (s := end_it s)); reflexivity.
+    intros s o ops [-> | ->]; simpl; f_equal; apply (ended_forever ops (end_it s)); reflexivity.
   Qed.
 End Refinement.
+
+(* ====================================================================== *)
+(** * The theorems, for every history *)
+
+Section Main.
+  Variables Str Size : Type.
+  Variable fmt_frame : nat -> Size -> res Str.
+  Variable hash : Size -> Z.
+  Variable N : nat.
+
+  Notation trace := (trace fmt_frame hash N).
+  Notation strace := (strace fmt_frame N).
+  Notation run := (run fmt_frame hash N).
+  Notation step := (step fmt_frame hash N).
+
+  Lemma ops_in_sizes_of : forall z0 (ops : list (op Size)), Forall (op_ok (sizes_of z0 ops)) ops.
+  Proof.
+    intros z0 ops. apply Forall_forall. intros o Ho. destruct o; simpl; auto.
+    right. apply in_flat_map. exists (SetImageSize z). simpl. auto.
+  Qed.
+
+  Lemma z0_in_sizes_of : forall z0 (ops : list (op Size)), In z0 (sizes_of z0 ops).
+  Proof. intros. left. reflexivity. Qed.
+
+  (** THE REFINEMENT: whatever the history, what the generator lets its caller see
+      (outcome of every operation incl. the frame yielded, image.tell(), loop_no, image
+      still open) is what the specification says *)
+  Lemma imgiter_refines_spec : forall cached repeat pos0 z0 ops,
+    renderer_ok fmt_frame N -> repeat <> 0 ->
+    (cached = true -> hash_separates hash (sizes_of z0 ops)) ->
+    trace cached (init Str repeat pos0 z0) ops = strace (sinit repeat pos0 z0) ops.
+  Proof.
+    intros cached repeat pos0 z0 ops (HN & He & Hne) Hr Hh.
+    apply (trace_sim (sizes := sizes_of z0 ops) HN He Hne Hh).
+    - apply init_Inv; auto using z0_in_sizes_of.
+    - apply init_R.
+    - apply ops_in_sizes_of.
+  Qed.
+
+  (** C09 for image iterators: the cache cannot be observed *)
+  Lemma imgiter_cache_transparent : forall repeat pos0 z0 ops,
+    renderer_ok fmt_frame N -> repeat <> 0 -> hash_separates hash (sizes_of z0 ops) ->
+    trace true (init Str repeat pos0 z0) ops = trace false (init Str repeat pos0 z0) ops.
+  Proof.
+    intros. rewrite !imgiter_refines_spec; auto; discriminate.
+  Qed.
+
+  Lemma reach : forall cached repeat pos0 z0 ops,
+    renderer_ok fmt_frame N -> repeat <> 0 ->
+    (cached = true -> hash_separates hash (sizes_of z0 ops)) ->
+    Inv fmt_frame hash N cached (sizes_of z0 ops) (fst (run cached (init Str repeat pos0 z0) ops)) /\
+    R (fst (run cached (init Str repeat pos0 z0) ops)) (srun fmt_frame N (sinit repeat pos0 z0) ops).
+  Proof.
+    intros cached repeat pos0 z0 ops (HN & He & Hne) Hr Hh.
+    apply (reach_sim (sizes := sizes_of z0 ops) HN He Hne Hh); auto using z0_in_sizes_of, ops_in_sizes_of.
+  Qed.
+
+  Lemma sizes_of_app_incl : forall z0 (ops : list (op Size)) o a,
+    In a (sizes_of z0 ops) -> In a (sizes_of z0 (ops ++ [o])).
+  Proof.
+    intros z0 ops o a [H|H]; [left; assumption|right].
+    rewrite flat_map_app. apply in_or_app. auto.
+  Qed.
+
+  Lemma Inv_mono : forall cached (l l' : list Size) s,
+    (forall a, In a l -> In a l') -> (cached = true -> hash_separates hash l') ->
+    Inv fmt_frame hash N cached l s -> Inv fmt_frame hash N cached l' s.
+  Proof.
+    intros cached l l' s Hincl _ (Hz & HI). split; [auto|].
+    assert (Hc : forall c, cache_ok fmt_frame hash l c -> cache_ok fmt_frame hash l' c).
+    { intros c Hc k f h Hn. destruct (Hc k f h Hn) as (z & ? & ? & ?). eauto. }
+    assert (Hf : cache_fine fmt_frame hash N l s -> cache_fine fmt_frame hash N l' s).
+    { intros (? & ?). split; auto. }
+    destruct (ph s); auto.
+    - destruct HI as (? & ? & ? & ? & ?). auto 10.
+    - destruct HI as (? & ? & ? & ? & ? & ?). auto 10.
+  Qed.
+
+  (** the state [s] reached by history [ops], one more operation [o] *)
+  Section AfterHistory.
+    Variables (cached : bool) (repeat pos0 : Z) (z0 : Size) (ops : list (op Size)) (o : op Size).
+    Hypothesis Hrend : renderer_ok fmt_frame N.
+    Hypothesis Hrep : repeat <> 0.
+    Hypothesis Hhash : cached = true -> hash_separates hash (sizes_of z0 (ops ++ [o])).
+
+    Let s := fst (run cached (init Str repeat pos0 z0) ops).
+    Let a := srun fmt_frame N (sinit repeat pos0 z0) ops.
+    Let zs := sizes_of z0 (ops ++ [o]).
+
+    Lemma reach_Inv : Inv fmt_frame hash N cached zs s /\ R s a /\ op_ok zs o.
+    Proof.
+      assert (Hh' : cached = true -> hash_separates hash (sizes_of z0 ops)).
+      { intros Hc x y Hx Hy. apply (Hhash Hc); apply sizes_of_app_incl; assumption. }
+      destruct (reach pos0 z0 ops Hrend Hrep Hh') as (HI & HR).
+      split; [|split; [exact HR|]].
+      - eapply Inv_mono; [|exact Hhash|exact HI]. intros x. apply sizes_of_app_incl.
+      - pose proof (ops_in_sizes_of z0 (ops ++ [o])) as F. rewrite Forall_forall in F.
+        apply F. apply in_or_app. right. left. reflexivity.
+    Qed.
+
+    (** the number of the last yielded frame is the image's seek position, the frame is the
+        direct formatting of that frame at the image's current size; operations other than
+        [next] leave the position alone *)
+    Lemma seek_position_tracks_last_yield :
+      (forall s' k f, step cached s o = (s', OYield k f) ->
+         o = Next /\ (k < N)%nat /\ pos s' = Z.of_nat k /\ fmt_frame k (size s) = Ok f /\ img_open s' = true)
+      /\ (o <> Next -> pos (fst (step cached s o)) = pos s).
+    Proof.
+      destruct Hrend as (HN & He & Hne). destruct reach_Inv as (HI & HR & Ho). split.
+      - intros s' k f E. exact (yield_sim HN He Hne Hhash o HI HR Ho E).
+      - apply other_ops_keep_position.
+    Qed.
+
+    (** when [next] first reports the end: position 0, countdown 0, the source PIL image
+        sought to frame 0, the iterator closed and its image handed to [_close_image] *)
+    Lemma exhaustion_resets_to_zero : forall s',
+      o = Next -> ph s <> PEnd -> step cached s Next = (s', OStop) ->
+      pos s' = 0 /\ loop_no s' = Some 0 /\ src_reset s' = true /\ ph s' = PEnd /\ img_open s' = false.
+    Proof.
+      intros s' Eo Hph E. destruct Hrend as (HN & He & Hne). destruct reach_Inv as (HI & HR & _).
+      exact (exhaustion_sim HN He Hne Hhash HI HR Hph E).
+    Qed.
+
+    (** a failing frame closes the iterator and its image *)
+    Lemma failure_closes : forall s',
+      ph s <> PEnd -> step cached s o = (s', ORaise) -> ph s' = PEnd /\ img_open s' = false.
+    Proof.
+      intros s' Hph E. destruct (step_ends _ _ _ _ _ _ E Hph) as (_ & H). exact (H eq_refl).
+    Qed.
+
+    (** the generator never spins without yielding *)
+    Lemma never_hangs : snd (step cached s o) <> OHang.
+    Proof.
+      destruct Hrend as (HN & He & Hne). destruct reach_Inv as (HI & HR & Ho).
+      exact (no_hang_sim HN He Hne Hhash o HI HR Ho).
+    Qed.
+
+    (** seek(p) on a started, open iterator replaces the index of the next frame and does
+        not consume a pass *)
+    Lemma seek_replaces_next_index : forall p,
+      o = Seek p -> (ph s = P1 \/ ph s = P2) -> 0 <= p < Z.of_nat N ->
+      let s1 := fst (step cached s (Seek p)) in
+      let r2 := step cached s1 Next in
+      snd (step cached s (Seek p)) = OSeekOk /\ pos s1 = pos s /\ loop_no s1 = loop_no s /\
+      loop_no (fst r2) = loop_no s /\ pos (fst r2) = p /\
+      snd r2 = match fmt_frame (Z.to_nat p) (size s) with
+               | Ok f => OYield (Z.to_nat p) f
+               | _ => ORaise
+               end.
+    Proof.
+      intros p Eo Hph Hp. destruct Hrend as (HN & He & Hne). destruct reach_Inv as (HI & HR & _).
+      exact (seek_sim HN He Hne Hhash HI HR Hph Hp).
+    Qed.
+  End AfterHistory.
+
+  (** close() / deletion: from then on nothing is rendered, nothing moves *)
+  Lemma close_is_final : forall cached (s : st Str Size) o ops, o = Close \/ o = Drop ->
+    trace cached s (o :: ops) =
+    (OClosed, pos s, loop_no s, false) :: map (ended_view Str N (pos s) (loop_no s)) ops.
+  Proof. intros. apply close_final; assumption. Qed.
+
+  (** the same after exhaustion or a failure *)
+  Lemma ended_is_final : forall cached (s : st Str Size) ops,
+    ph s = PEnd -> img_open s = false ->
+    trace cached s ops = map (ended_view Str N (pos s) (loop_no s)) ops.
+  Proof. intros. apply ended_forever; assumption. Qed.
+
+  (* ------------------------------------------ plain iteration, pass by pass *)
+
+  Section Frames.
+    Variable F : nat -> Str.
+    Variable z0 : Size.
+    Hypothesis HN : (1 <= N)%nat.
+    Hypothesis HF : forall k, (k < N)%nat -> fmt_frame k z0 = Ok (F k).
+
+    Notation sp := (sp Size).
+    Notation sstep := (sstep fmt_frame N).
+    Notation srun := (srun fmt_frame N).
+
+    Lemma strace_app : forall ops1 ops2 (a : sp),
+      strace a (ops1 ++ ops2) = strace a ops1 ++ strace (srun a ops1) ops2.
+    Proof.
+      induction ops1 as [|o ops1 IH]; intros ops2 a; [reflexivity|].
+      simpl. destruct (sstep a o) as [a1 x] eqn:E. simpl. f_equal. apply IH.
+    Qed.
+
+    (** inside a pass: frames j, j+1, .., N-1 *)
+    Lemma rest_of_pass : forall m j (a : sp),
+      (j + m = N)%nat -> closed a = false -> nxt a = j -> ssize a = z0 ->
+      strace a (repeat Next m) =
+        map (fun k => (OYield k (F k), Z.of_nat k, Some (left a), true)) (seq j m)
+      /\ closed (srun a (repeat Next m)) = false /\ nxt (srun a (repeat Next m)) = N
+      /\ left (srun a (repeat Next m)) = left a /\ ssize (srun a (repeat Next m)) = z0.
+    Proof.
+      induction m as [|m IH]; intros j a Hj Hc Hn Hz.
+      - simpl. repeat split; auto. lia.
+      - assert (E : sstep a Next =
+          ({| started := true; closed := false; nxt := S j; left := left a; spos := Z.of_nat j;
+              ssize := z0; sloop := Some (left a) |}, OYield j (F j))).
+        { simpl. rewrite Hc. replace (nxt a <? N)%nat with true by (symmetry; apply Nat.ltb_lt; lia).
+          unfold produce. rewrite Hn, Hz, HF by lia. reflexivity. }
+        simpl repeat. cbn [strace ImgIterSpec.strace srun ImgIterSpec.srun]. rewrite E. cbn [fst snd].
+        destruct (IH (S j) {| started := true; closed := false; nxt := S j; left := left a;
+                              spos := Z.of_nat j; ssize := z0; sloop := Some (left a) |})
+          as (T & H1 & H2 & H3 & H4); try reflexivity; try lia.
+        cbn [left] in T, H3. rewrite T. simpl. repeat split; auto.
+    Qed.
+
+    Lemma closed_stops : forall m (b : sp), closed b = true ->
+      strace b (repeat Next m) = repeat (OStop, spos b, sloop b, false) m.
+    Proof.
+      induction m as [|m IH]; intros b Hb; [reflexivity|].
+      simpl. rewrite Hb. cbn [fst snd]. rewrite Hb. simpl. f_equal. apply IH. assumption.
+    Qed.
+
+    Lemma seq_S_pred : seq 0 N = 0%nat :: seq 1 (N - 1).
+    Proof. destruct N as [|n']; [lia|]. simpl. rewrite Nat.sub_0_r. reflexivity. Qed.
+
+    (** at the end of a pass, or before the first frame, when the coming pass shows [l] on
+        the countdown: one full pass *)
+    Lemma full_pass : forall (a : sp) l,
+      closed a = false -> ssize a = z0 -> l <> 0 ->
+      (nxt a = 0%nat /\ left a = l \/
+       nxt a = N /\ (if 0 <? left a then left a - 1 else left a) = l) ->
+      strace a (repeat Next N) = pass_frames N F l
+      /\ closed (srun a (repeat Next N)) = false /\ nxt (srun a (repeat Next N)) = N
+      /\ left (srun a (repeat Next N)) = l /\ ssize (srun a (repeat Next N)) = z0.
+    Proof.
+      intros a l Hc Hz Hl [(Hn & Hle) | (Hn & Hle)].
+      - destruct (@rest_of_pass N 0%nat a) as (T & H1 & H2 & H3 & H4); auto.
+        rewrite T, H3, Hle. unfold pass_frames. auto.
+      - assert (E : sstep a Next =
+          ({| started := true; closed := false; nxt := 1; left := l; spos := 0;
+              ssize := z0; sloop := Some l |}, OYield 0 (F 0%nat))).
+        { simpl. rewrite Hc, Hn, Nat.ltb_irrefl, Hle.
+          destruct (l =? 0) eqn:E0; [apply Z.eqb_eq in E0; contradiction|].
+          unfold produce. rewrite Hz, HF by lia. reflexivity. }
+        replace N with (S (N - 1)) at 1 3 4 5 6 by lia.
+        simpl repeat. cbn [strace ImgIterSpec.strace srun ImgIterSpec.srun]. rewrite E. cbn [fst snd].
+        destruct (@rest_of_pass (N - 1) 1%nat {| started := true; closed := false; nxt := 1; left := l;
+                                                 spos := 0; ssize := z0; sloop := Some l |})
+          as (T & H1 & H2 & H3 & H4); try reflexivity; try lia.
+        cbn [left] in T, H3. rewrite T. unfold pass_frames. rewrite seq_S_pred. simpl. auto.
+    Qed.
+
+    (** at the end of a pass with [c + 1] passes left (this one included): [c] more passes,
+        then StopIteration for ever *)
+    Lemma passes_from_boundary : forall c m (a : sp),
+      closed a = false -> nxt a = N -> left a = Z.of_nat (S c) -> ssize a = z0 ->
+      strace a (repeat Next (c * N + m)) = passes N F c ++ repeat (stopped Str) m.
+    Proof.
+      induction c as [|c IH]; intros m a Hc Hn Hl Hz.
+      - (* the last pass is over *)
+        simpl. destruct m as [|m]; [reflexivity|].
+        simpl repeat. cbn [strace ImgIterSpec.strace].
+        assert (E : sstep a Next =
+          ({| started := true; closed := true; nxt := 0; left := 0; spos := 0; ssize := z0;
+              sloop := Some 0 |}, OStop)).
+        { simpl. rewrite Hc, Hn, Nat.ltb_irrefl, Hl, Hz. reflexivity. }
+        rewrite E. cbn [fst snd closed spos sloop negb]. unfold stopped at 1. f_equal.
+        rewrite closed_stops by reflexivity. reflexivity.
+      - replace (S c * N + m)%nat with (N + (c * N + m))%nat by lia.
+        rewrite repeat_app, strace_app.
+        destruct (@full_pass a (Z.of_nat (S c))) as (T & H1 & H2 & H3 & H4); auto; try lia.
+        { right. split; [assumption|]. rewrite Hl. replace (0 <? Z.of_nat (S (S c))) with true; [lia|].
+          symmetry. apply Z.ltb_lt. lia. }
+        rewrite T. cbn [passes ImgIterSpec.passes]. rewrite <- app_assoc. f_equal.
+        apply IH; assumption.
+    Qed.
+
+    (** the specification, iterated without seeks: [repeat] passes, then the end *)
+    Lemma spec_frames : forall L m pos0,
+      strace (sinit (Z.of_nat (S L)) pos0 z0) (repeat Next (S L * N + m)) =
+      passes N F (S L) ++ repeat (stopped Str) m.
+    Proof.
+      intros L m pos0.
+      replace (S L * N + m)%nat with (N + (L * N + m))%nat by lia.
+      rewrite repeat_app, strace_app.
+      destruct (@full_pass (sinit (Z.of_nat (S L)) pos0 z0) (Z.of_nat (S L)))
+        as (T & H1 & H2 & H3 & H4); auto; try lia.
+      rewrite T. cbn [passes ImgIterSpec.passes]. rewrite <- app_assoc. f_equal.
+      apply passes_from_boundary; assumption.
+    Qed.
+
+    (** a negative repeat count: the same pass for ever, the countdown unchanged *)
+    Lemma spec_frames_infinite : forall r p pos0, r < 0 ->
+      strace (sinit r pos0 z0) (repeat Next (p * N)) = concat (repeat (pass_frames N F r) p).
+    Proof.
+      intros r p pos0 Hr.
+      assert (G : forall p (a : sp), closed a = false -> ssize a = z0 -> left a = r ->
+                    (nxt a = 0%nat \/ nxt a = N) ->
+                    strace a (repeat Next (p * N)) = concat (repeat (pass_frames N F r) p)).
+      { induction p0 as [|p0 IHp]; intros a Hc Hz Hl Hn; [reflexivity|].
+        replace (S p0 * N)%nat with (N + p0 * N)%nat by lia.
+        rewrite repeat_app, strace_app.
+        destruct (@full_pass a r) as (T & H1 & H2 & H3 & H4); auto; try lia.
+        { destruct Hn as [Hn|Hn]; [left; auto|right]. split; [assumption|].
+          rewrite Hl. replace (0 <? r) with false; [reflexivity|]. symmetry. apply Z.ltb_ge. lia. }
+        rewrite T. simpl. f_equal. apply IHp; auto. }
+      apply G; auto.
+    Qed.
+  End Frames.
+
+  Lemma sizes_of_repeat_next : forall (z0 : Size) m, sizes_of z0 (repeat Next m) = [z0].
+  Proof.
+    intros z0 m. unfold sizes_of. f_equal. induction m; [reflexivity|]. simpl. assumption.
+  Qed.
+
+  Lemma one_size_separated : forall z0 : Size, hash_separates hash [z0].
+  Proof. intros z0 x y [<-|[]] [<-|[]] _. reflexivity. Qed.
+
+  (** THE FRAMES: iterating [repeat] = L+1 times over an image whose frames format to
+      F 0 .. F (N-1) yields exactly those, in order, once per pass, the seek position
+      following, the countdown showing L+1, L, .., 1; then StopIteration for ever with
+      position 0, countdown 0, the image closed *)
+  Lemma imgiter_frames : forall cached F z0 L m pos0,
+    renderer_ok fmt_frame N -> (forall k, (k < N)%nat -> fmt_frame k z0 = Ok (F k)) ->
+    trace cached (init Str (Z.of_nat (S L)) pos0 z0) (repeat Next (S L * N + m)) =
+    passes N F (S L) ++ repeat (stopped Str) m.
+  Proof.
+    intros cached F z0 L m pos0 Hrend HF.
+    rewrite imgiter_refines_spec; auto; try lia.
+    - apply spec_frames; auto. apply Hrend.
+    - intros _. rewrite sizes_of_repeat_next. apply one_size_separated.
+  Qed.
+
+  Lemma imgiter_frames_infinite : forall cached F z0 r p pos0,
+    renderer_ok fmt_frame N -> (forall k, (k < N)%nat -> fmt_frame k z0 = Ok (F k)) -> r < 0 ->
+    trace cached (init Str r pos0 z0) (repeat Next (p * N)) = concat (repeat (pass_frames N F r) p).
+  Proof.
+    intros cached F z0 r p pos0 Hrend HF Hr.
+    rewrite imgiter_refines_spec; auto; try lia.
+    - apply spec_frames_infinite; auto. apply Hrend.
+    - intros _. rewrite sizes_of_repeat_next. apply one_size_separated.
+  Qed.
+End Main.
